@@ -5,15 +5,11 @@ type C20Scn struct {
 	Readers []TaskSpec `json:"readers"`
 }
 type C05Scn struct{}
-type C07Scn struct{}
 
 func genC20(r *Rng, tier string) *C20Scn                  { return nil }
 func genC05(r *Rng, tier string) *C05Scn                  { return nil }
-func genC07(r *Rng, tier string, worker, run int) *C07Scn { return nil }
 func executeC20(s *Scenario) *RunResult                   { return nil }
 func executeC05(s *Scenario) *RunResult                   { return nil }
-func executeC07(s *Scenario) *RunResult                   { return nil }
 func redC05(s *Scenario) []func(*Scenario) bool           { return nil }
-func redC07(s *Scenario) []func(*Scenario) bool           { return nil }
 
 func raceC20(s *Scenario) *RunResult { return nil }
